@@ -7,7 +7,7 @@ LEVEL = "model_checking"
 EXHAUSTIVE = True
 CHUNK = 1
 CASE_TIMEOUT = 600
-RULE = ("all statement sequences up to the depth bound over a 19-statement alphabet in which every statement is tagged with the word "
+RULE = ("all statement sequences up to the depth bound over a 23-statement alphabet in which every statement is tagged with the word "
         "offsets that hold absolute addresses (immediate/absolute/index/.word of labels, of '.', and of symbols assigned label "
         "expressions before the labels exist; PC-relative operands, branches, sob, label differences directly and through symbols, "
         "an included file referring to a global of the including file), labels before/inside/after; each program is assembled at 5 "
@@ -42,9 +42,17 @@ S = [
     (".word pa", 2, [(0, "m", 2)], "pa"),
     (".include \"inc.mac\"", 6, [(2, "gl", 0)], "gl"),
     ("mov @#s, @e", 6, [(1, "s", 0)], ""),
+    (".include \"lib.mac\"", 14, [(6, ".", 0)], "lib"),
+    ("jsr pc, il", 4, [], "il"),
+    ("mov il, r2", 4, [], "il"),
+    ("mov #il, r2", 4, [(1, "il", 0)], "il"),
 ]
 DEFS = {"sz": "sz = e - s", "fp": "fp = e - 2", "pa": "pa = m + 2"}
-TREE = {"inc.mac": "mov gl, r1\n.word gl\n"}
+TREE = {"inc.mac": "mov gl, r1\n.word gl\n",
+        # an included file that refers to its own first label (whose address is the bare start promise of that file)
+        "lib.mac": "lib:\tnop\n\tjsr pc, lib\n\tmov lib, r3\n\tbr lib\n\t.word lib\n",
+        # an included file with an exported label that is not at its offset 0, referred to from the including file
+        "il.mac": "\tnop\nil::\tnop\n"}
 
 
 def bound(tier):
@@ -100,6 +108,10 @@ def build(idx, base, place):
         lines.append("gl:: nop")
         labels["gl"] = off
         off += 2
+    if "il" in needs:
+        lines.append(".include \"il.mac\"")
+        labels["il"] = off + 2
+        off += 4
     if place == "link-last":
         lines.append(".link %o" % base)
     return "\n".join(lines) + "\n", tags, labels, off
@@ -107,13 +119,13 @@ def build(idx, base, place):
 
 def check_seq(idx, r, case_extra=None):
     has_abs = any(S[i][2] for i in idx)
-    bases = BASES + ([] if has_abs else WRAP)
+    bases = (BASES if FULL_BASES or len(idx) < 3 else BASES[:2] + BASES[3:]) + ([] if has_abs else WRAP)
     for place in PLACE:
         imgs = {}
         info = None
         for b in bases:
             text, tags, labels, size = build(idx, b, place)
-            out = driver.assemble([("p.mac", text)], tree=TREE if any(S[i][3] == "gl" for i in idx) else None)
+            out = driver.assemble([("p.mac", text)], tree=TREE if any(S[i][3] in ("gl", "lib", "il") for i in idx) else None)
             r.trans += 1
             imgs[b] = (out, text)
             info = (tags, labels, size)
@@ -168,7 +180,12 @@ def check_seq(idx, r, case_extra=None):
             r.violation("%s:%s" % (sig, place), what, case, None, {("%o" % b): o.code.hex() for b, (o, _t) in imgs.items()})
 
 
+FULL_BASES = True
+
+
 def check(case, r, tier):
+    global FULL_BASES
+    FULL_BASES = tier == "thorough"
     k = case["k"]
     if k == "one":
         # replay of a single (sequence, placement)
